@@ -7,7 +7,8 @@ impl  = the REAL `insert-sync-barrier` applied to the rendered MLIR; the output 
 model = Lean `insertBarriers` on the block form derived from the abstract function (classes as the generator
         knows them) -> must be the same block, barrier for barrier
 oracle= the property on the real code, independent of the model: `insert-sync-barrier` then `dispatch-regions`
-        are applied; the dispatched IR is executed path by path (all branch outcomes, trip counts 0..2); who runs
+        are applied; the dispatched IR is executed path by path (all branch outcomes; trip counts 0..2 for loops with
+        dynamic bounds, the REAL trip count ceil((ub-lb)/step) for loops whose bounds are arith.constant); who runs
         an operation is read off the core guards that dispatch-regions emitted; every barrier must be outside
         every core guard; inside an epoch no two operations of different core sets may touch a common buffer
         with a write.
@@ -26,7 +27,9 @@ FIXED_MODEL = os.environ.get("C13_MODEL", "fixed") != "orig"   # "orig" = model 
 # ------------------------------------------------------------------------------------------------------------
 # abstract programs
 #   stmt := ["copy", s, d] | ["gen", a, b, c] | ["dart", acc, a, b, c] | ["use", [bufs]] | ["sync"]
-#         | ["alloc", name] | ["dealloc", b] | ["sv", name, base] | ["if", then, else|None] | ["for", body]
+#         | ["alloc", name] | ["dealloc", b] | ["sv", name, base] | ["if", then, else|None, ci] | ["for", body, ui]
+#           ui = 0|1: dynamic bounds (%lb to %ub<ui> step %st); ui = [lb, ub, step]: three arith.constant index ops
+#           in front of the loop (constant trip count = ceil((ub-lb)/step), 0 if empty)
 #   buffers are named by strings: "b0".. (function arguments), "m0".. (allocs), "v0".. (subviews)
 # classes the generator expects from dispatching_rules.py:
 DART_CLS = {"snax_alu": "cp", "snax_xdma": "dm", "snax_xdma_mul": "all"}
@@ -84,7 +87,12 @@ def render(case):
                 out.append(f"{ind}}}")
             elif k == "for":
                 cnt[0] += 1
-                out.append(f"{ind}scf.for %i{cnt[0]} = %lb to %ub{s[2] if len(s) > 2 else 0} step %st {{")
+                if len(s) > 2 and isinstance(s[2], list):
+                    for nm, v in zip(("l", "u", "s"), s[2]):
+                        out.append(f"{ind}%k{nm}{cnt[0]} = arith.constant {v} : index")
+                    out.append(f"{ind}scf.for %i{cnt[0]} = %kl{cnt[0]} to %ku{cnt[0]} step %ks{cnt[0]} {{")
+                else:
+                    out.append(f"{ind}scf.for %i{cnt[0]} = %lb to %ub{s[2] if len(s) > 2 else 0} step %st {{")
                 block(s[1], ind + "  ")
                 out.append(f"{ind}}}")
             else:
@@ -152,7 +160,16 @@ def abstract_block(case):
                 e = (block(s[2]) + [leaf("all", [])]) if s[2] is not None else []
                 res.append(["if", l, t, e])
             elif k == "for":
-                l = leaf("all", [val["lb"], val[f"ub{s[2] if len(s) > 2 else 0}"], val["st"]])
+                if len(s) > 2 and isinstance(s[2], list):
+                    kv = []
+                    for _ in s[2]:  # arith.constant: an all-cores operation defining one value
+                        i = fresh_id()
+                        kv.append(nxt[0])
+                        res.append(["leaf", i, "all", [nxt[0]], [], [], False])
+                        nxt[0] += 1
+                    l = leaf("all", kv)
+                else:
+                    l = leaf("all", [val["lb"], val[f"ub{s[2] if len(s) > 2 else 0}"], val["st"]])
                 nxt[0] += 1  # induction variable
                 b = block(s[1]) + [leaf("all", [])]
                 res.append(["for", l, b])
@@ -374,6 +391,23 @@ def core_guard(op, scf):
     return rhs.op.value.value.data
 
 
+def const_trip_count(for_op):
+    """The REAL trip count of an scf.for whose lb, ub and step are arith.constant values:
+    ceil((ub - lb) / step), 0 for an empty range; None when a bound is not a constant (or the step is not positive)."""
+    from xdsl.dialects import arith
+    from xdsl.dialects.builtin import IntegerAttr
+    from xdsl.ir import OpResult
+    vals = []
+    for b in (for_op.lb, for_op.ub, for_op.step):
+        if not (isinstance(b, OpResult) and isinstance(b.op, arith.ConstantOp) and isinstance(b.op.value, IntegerAttr)):
+            return None
+        vals.append(b.op.value.value.data)
+    lb, ub, step = vals
+    if step <= 0:
+        return None
+    return 0 if ub <= lb else -((lb - ub) // step)
+
+
 def trace(conv, f, dec, nb_cores):
     """Sequential path through the dispatched function: list of ("sync", cores) | ("op", op, cores, iteration stamp).
     `cores` = frozenset of the cores that execute the operation (intersection of the enclosing core guards)."""
@@ -399,7 +433,9 @@ def trace(conv, f, dec, nb_cores):
                         run(op.false_region.block, cores, stamp)
             elif isinstance(op, scf.ForOp):
                 ev.append(("op", op, cores, stamp))
-                n = dec.choose(3, ("for", op.lb, op.ub, op.step))
+                n = const_trip_count(op)
+                if n is None:  # dynamic bounds: any trip count (0..2 explored)
+                    n = dec.choose(3, ("for", op.lb, op.ub, op.step))
                 for it in range(n):
                     run(op.body.block, cores, stamp + ((id(op), it),))
             else:
@@ -473,7 +509,10 @@ class Gen:
         r = self.r
         k = r.random()
         if depth < self.depth and k < 0.14:
-            return ["for", self.block(depth + 1, r.randint(1, 4)), r.randint(0, 1)]
+            body = self.block(depth + 1, r.randint(1, 4))
+            if r.random() < 0.45:
+                return ["for", body, const_bounds(r)]
+            return ["for", body, r.randint(0, 1)]
         if depth < self.depth and k < 0.26:
             t = self.block(depth + 1, r.randint(0, 3))
             e = self.block(depth + 1, r.randint(0, 2)) if r.random() < 0.4 else None
@@ -516,6 +555,36 @@ class Gen:
         return [self.stmt(depth) for _ in range(n)]
 
 
+def const_bounds(r):
+    """[lb, ub, step] of a constant-bound loop: empty ranges, single trips (range < step, = step), ranges that are not
+    a multiple of the step (floor and ceil of the trip count differ), exact multiples; at most 4 trips."""
+    step = r.choice([1, 2, 2, 3, 3, 4, 5])
+    lb = r.choice([0, 0, 1, 2, 5])
+    shape = r.random()
+    if shape < 0.10:
+        span = r.choice([0, -1, -step])                      # empty
+    elif shape < 0.25:
+        span = r.randint(1, step)                            # one trip
+    elif shape < 0.60 and step > 1:
+        span = r.randint(step + 1, 2 * step - 1)             # two trips, floor((ub-lb)/step) = 1
+    elif shape < 0.75:
+        span = 2 * step                                      # two trips, exact
+    else:
+        span = r.randint(2 * step + 1, 4 * step)             # three or four trips
+    return [lb, lb + span, step]
+
+
+def walk_stmts(stmts):
+    for s in stmts:
+        yield s
+        if s[0] == "for":
+            yield from walk_stmts(s[1])
+        elif s[0] == "if":
+            yield from walk_stmts(s[1])
+            if s[2] is not None:
+                yield from walk_stmts(s[2])
+
+
 def gen_case(rng):
     flavour = rng.random()
     p_all = 0.0 if flavour < 0.55 else rng.choice([0.1, 0.25])
@@ -529,14 +598,21 @@ SMALL_OPS = [["copy", "b0", "b1"], ["copy", "b1", "b0"], ["gen", "b0", "b0", "b1
              ["gen", "b0", "b0", "b0"], ["use", ["b0"]], ["use", ["b1"]], ["sync"]]
 
 
+SMALL_BOUNDS = [(0, 0, 1), (0, 1, 1), (0, 2, 2), (0, 3, 2), (1, 6, 3), (0, 4, 2), (0, 7, 4), (2, 1, 1)]
+
+
 def exhaustive_cases():
     """Named small space: every sequence of 1..3 operations from SMALL_OPS over two buffers, as a straight line,
-    as the body of a loop, and as `first; if { rest }; last`-style conditional (then-branch = all but the first)."""
+    as the body of a loop, and as `first; if { rest }; last`-style conditional (then-branch = all but the first);
+    every sequence of 2 operations as the body of a constant-bound loop for each (lb, ub, step) of SMALL_BOUNDS."""
     for n in (1, 2, 3):
         for seq in itertools.product(SMALL_OPS, repeat=n):
             seq = [list(s) for s in seq]
             yield {"kind": "small-line", "nbuf": 2, "body": seq}
             yield {"kind": "small-loop", "nbuf": 2, "body": [["for", seq]]}
+            if n == 2:
+                for kb in SMALL_BOUNDS:
+                    yield {"kind": "small-constloop", "nbuf": 2, "body": [["for", seq, list(kb)]]}
             if n >= 2:
                 yield {"kind": "small-if", "nbuf": 2, "body": [seq[0], ["if", seq[1:-1] or [["sync"]], None], seq[-1]] if n == 3 else
                        [seq[0], ["if", [seq[1]], None], seq[1]]}
@@ -568,7 +644,8 @@ class C13(Prop):
     ]
     rule = ("random functions (2-4 argument buffers + allocs, 2-8 top-level statements, nesting depth <= 3) of memref.copy, "
             "linalg.generic, dart.operation on snax_alu / snax_xdma(add) / snax_xdma(mul), all-cores uses, allocs, deallocs, "
-            "subviews, pre-existing barriers, scf.if (with and without else), scf.for; non-trivial = the pass inserted at "
+            "subviews, pre-existing barriers, scf.if (with and without else), scf.for with dynamic bounds and with arith.constant "
+            "bounds (empty, single-trip, range not a multiple of the step, up to 4 trips); non-trivial = the pass inserted at "
             "least one barrier")
 
     def cases(self, rng, tier):
@@ -629,7 +706,8 @@ class C13(Prop):
         if k != case.get("kind"):
             return k
         s = str(case["body"])
-        tags = [t for t, w in (("loop", "'for'"), ("if", "'if'"), ("all", "'use'"), ("view", "'sv'"), ("dart", "'dart'"),
+        tags = (["cloop"] if "], [" in s and any(isinstance(x, list) and x and x[0] == "for" and len(x) > 2 and isinstance(x[2], list)
+                                                   for x in walk_stmts(case["body"])) else []) + [t for t, w in (("loop", "'for'"), ("if", "'if'"), ("all", "'use'"), ("view", "'sv'"), ("dart", "'dart'"),
                                ("dealloc", "'dealloc'")) if w in s]
         return k + ":" + "+".join(tags or ["line"])
 
